@@ -79,22 +79,30 @@ def run_item(item):
 
 def main():
     only = None
+    prop = None
     jobs = 3
     a = sys.argv[1:]
     while a:
         if a[0] == "--only":
             only = a[1]; a = a[2:]
+        elif a[0] == "--prop":
+            prop = a[1]; a = a[2:]
         elif a[0] == "--jobs":
             jobs = int(a[1]); a = a[2:]
         else:
             a = a[1:]
     its = items(only)
+    if prop:
+        # the items that target this property, checked against this property only
+        its = [(n, p, [prop], e) for (n, p, ps, e) in its if prop in ps and (e == "pass" or ps[0] == prop or n.startswith("canary/"))]
     rows = []
     with concurrent.futures.ThreadPoolExecutor(max_workers=jobs) as ex:
         for r in ex.map(run_item, its):
             print(r[0], r[2], "::", r[3][:300], flush=True)
             rows.append(r)
-    if not only:
+    if prop:
+        print("SELFTEST-JSON " + json.dumps([{"item": r[0], "expected": r[1], "result": r[2]} for r in rows]))
+    if not only and not prop:
         with open(os.path.join(ROOT, "selftest", "RESULTS.md"), "w") as f:
             f.write("# Self-test corpus results (scratch copies of /repo; regenerated by selftest/run_corpus.py)\n\n| item | expected | result | obligations reported |\n|---|---|---|---|\n")
             for r in rows:
